@@ -46,6 +46,11 @@ ACTIVITIES = {
     # (the consumer is slower than the sender, so the sender sits blocked in the middle of a frame nearly all the time:
     # a writer that never has to wait is only killed between two write calls, i.e. between frames)
     "inbound_flood": "import time\nchannel.setcallback(lambda item: time.sleep(0.02))\nchannel.send('started')\ntime.sleep(100000)\n",
+    # killed (by the initiator, below) while a helper process it started still holds its output pipe: whoever relays
+    # for this worker sees no end of stream
+    "killed_pipe_held": ("import os, subprocess\nfd = channel.gateway._io.outfile.fileno()\nos.set_inheritable(fd, True)\n"
+                         "subprocess.Popen(['sleep', '25'], pass_fds=[fd], stdin=subprocess.DEVNULL, stdout=subprocess.DEVNULL, stderr=subprocess.DEVNULL)\n"
+                         "channel.send('started')\nchannel.receive()\n"),
     "stopped": "channel.send('started')\nchannel.receive()\n",
     "killed": "channel.send('started')\nchannel.receive()\n",
 }
@@ -131,7 +136,7 @@ def main():
         act = g.get("activity", "idle")
         if act == "stopped":
             os.kill(workers[g["id"]], signal.SIGSTOP)
-        elif act == "killed":
+        elif act in ("killed", "killed_pipe_held"):
             os.kill(workers[g["id"]], signal.SIGKILL)
             time.sleep(0.1)
     if any(g.get("activity") in ("fds_closed_alive", "execv_sleep") for g in case["gateways"]):
